@@ -59,3 +59,34 @@ def pick(values, salt=0, dtype="int32", wide="int64"):
     if wide is None and name.startswith("wide"):
         name = "strided"
     return name, in_form(values, name, dtype=dtype, wide=wide)
+
+
+REFORMS = ["asis", "strided", "reversed-view", "column", "readonly", "fortran-row"]
+
+
+def reform(arr, k):
+    """The same 1-D numpy array (any dtype) laid out differently in memory; k picks the layout."""
+    import numpy as np
+
+    arr = np.asarray(arr)
+    name = REFORMS[k % len(REFORMS)]
+    n = len(arr)
+    if name == "asis" or arr.ndim != 1:
+        return "asis", arr
+    if name == "strided":
+        buf = np.zeros(2 * n + 1, dtype=arr.dtype)
+        buf[:2 * n:2] = arr
+        return name, buf[:2 * n:2]
+    if name == "reversed-view":
+        return name, arr[::-1].copy()[::-1]
+    if name == "column":
+        two = np.zeros((n, 3), dtype=arr.dtype)
+        two[:, 1] = arr
+        return name, two[:, 1]
+    if name == "fortran-row":
+        two = np.zeros((2, n), dtype=arr.dtype, order="F")
+        two[1, :] = arr
+        return name, two[1, :]
+    ro = arr.copy()
+    ro.setflags(write=False)
+    return name, ro
